@@ -110,7 +110,7 @@ def threshold_literal(nf, residual, nu_term):
     return None
 
 
-def undefined_quotients(dom, terms):
+def undefined_quotients(dom, terms, strict=True):
     """Denominators that are not certified non-zero on the domain.  The normal-form identity treats a quotient as a
     rational function and cancels common factors; that is an identity of *values* only where every denominator the
     code actually divides by is non-zero.  `(va/vb + 1)^2 / ((va/vb)^2/(na+1) + 1/(nb+1))` is the documented dof as a
@@ -130,7 +130,9 @@ def undefined_quotients(dom, terms):
                 sg = dom.sign(b)
             except (NotReal, KeyError, TypeError, ValueError):
                 sg = None
-            if sg not in ('+', '-'):
+            # strict: a denominator without a certificate is reported too (fail closed); otherwise only one whose
+            # certificate says that zero is attained on the closure of the box (the box of C02 is not the accepted region)
+            if sg not in ('+', '-') and (strict or sg is not None):
                 out.append(T.show(b)[:200])
     for t in terms:
         if t is not None and not isinstance(t, int):
